@@ -691,7 +691,7 @@ func c16Extra(c *Ctx) {
 						continue
 					}
 					sites++
-					ok := dependsOnCall(call.Call.Args[0], func(cc *ssa.CallCommon) bool { return calleeIs(staticCalleeObj(cc), "private/pkg/normalpath", "Rel") })
+					ok := dependsOnCallUp(p, call.Call.Args[0], func(cc *ssa.CallCommon) bool { return calleeIs(staticCalleeObj(cc), "private/pkg/normalpath", "Rel") }, 2)
 					c.Ob("MIGRATE-REBASE", ssaFuncName(f)+"/NewModuleConfig", call.Pos(), ok, true, "the module directory derives from normalpath.Rel(destination, …) like at the sibling sites: %v", ok)
 				}
 			}
